@@ -411,6 +411,14 @@ func (ps *ProtoSession) Step(k int) (Reaction, error) {
 	i, s, cfg := ps.I, ps.S, ps.S.Cfg
 	st := s.Steps[k]
 	kind := str(st, "k", "other")
+	if kind == "ownerget" {
+		// meanwhile the browser that downloaded this tunnel's connection file asks for /connect again, from ITS address
+		// and with its session cookie (the owner reloading the page): not this tunnel's business
+		if b := ps.I.lastMintBrowser; b != nil {
+			b.Get(ps.I.BaseURL() + "/connect")
+		}
+		return Reaction{}, nil
+	}
 	if kind == "idle" {
 		// the client keeps the connection open and says nothing for a while
 		time.Sleep(time.Duration(num(st, "ms", 1000)) * time.Millisecond)
